@@ -1,4 +1,5 @@
 import Ts.Kahn
+import Ts.KahnComplete
 
 /-! # C15 — property theorems (statements only; proofs live in the family libraries) -/
 
@@ -25,6 +26,33 @@ theorem toposortP_sound :
     (hV : ∀ e ∈ E, e.1 ∈ V ∧ e.2 ∈ V) (L : List Nat) (h : toposortP pick V E = some (L, true)),
     L.Nodup ∧ (∀ x, x ∈ L ↔ x ∈ V) ∧ ∀ e ∈ E, Before L e.1 e.2 :=
   @Kahn.toposortP_sound
+end
+
+section
+open Kahn
+
+/-- completeness: on an acyclic graph (a rank function increasing along every edge exists) built from distinct nodes
+and distinct edges the sort terminates and reports success, for every child order that is duplicate-free, uses only
+existing edges and covers all out-edges -/
+theorem toposortP_complete :
+    ∀ (pick : List Edge → Nat → List Nat) (hpick : PickOK pick) (hall : PickAll pick)
+    (V : List Nat) (E : List Edge) (hVn : V.Nodup) (hEn : E.Nodup)
+    (hV : ∀ e ∈ E, e.1 ∈ V ∧ e.2 ∈ V) (hr : Ranked E),
+    ∃ L, toposortP pick V E = some (L, true) :=
+  @Kahn.toposortP_complete
+
+/-- a graph with a closed walk along edges is not acyclic in that sense -/
+theorem not_ranked_of_cycle :
+    ∀ (E : List Edge) (c : Nat) (walk : List Nat)
+    (hw : ∀ p ∈ (c :: walk).zip (walk ++ [c]), p ∈ E), ¬ Ranked E :=
+  @Kahn.not_ranked_of_cycle
+
+/-- success if and only if acyclic -/
+theorem toposort_success_iff :
+    ∀ (V : List Nat) (E : List Edge) (hVn : V.Nodup) (hEn : E.Nodup)
+    (hV : ∀ e ∈ E, e.1 ∈ V ∧ e.2 ∈ V),
+    (∃ L, toposort V E = some (L, true)) ↔ Ranked E :=
+  @Kahn.toposort_success_iff
 end
 
 end Props.C15
